@@ -280,3 +280,20 @@ Proof.
     destruct Ha as [->|[Ha|Ha]]; try discriminate; try reflexivity;
     destruct alpha; reflexivity.
 Qed.
+
+(* ------------------------------------------------------------------ histories of calls *)
+(* The strategies are pure: the model of a history of calls is the list of the per-call results, so what a call
+   returns does not depend on the calls made before or after it (this is what the hist family checks the
+   implementation against, call by call). *)
+Record callargs := CA { ca_sd : sdict; ca_name : string; ca_size : Z; ca_alpha : option pyval }.
+Definition run_call (L : libm) (a : callargs) : option (list pyval) :=
+  call L tmpl_window tmpl_wsymm win_table (ca_sd a) (ca_name a) (ca_size a) (ca_alpha a).
+Definition run_history (L : libm) (h : list callargs) : list (option (list pyval)) := map (run_call L) h.
+
+Lemma calls_independent L pre a post :
+  nth_error (run_history L (pre ++ a :: post)) (List.length pre) = Some (run_call L a).
+Proof.
+  unfold run_history. rewrite map_app. cbn [map].
+  rewrite nth_error_app2 by (rewrite map_length; lia).
+  rewrite map_length, Nat.sub_diag. reflexivity.
+Qed.
